@@ -83,6 +83,11 @@ def cases(tier):
     return out
 
 
+def interp_cases(tier):
+    """interpreted pass (NUMBA_DISABLE_JIT=1)"""
+    return [{"kind": "int", "mesh": "mixedpatch", "rev": False, "tier": "quick"}, {"kind": "int", "mesh": "tetra", "rev": True, "tier": "quick", "pre": "face_areas"}]
+
+
 def selftest_case(tier):
     return {"kind": "int", "mesh": "mixedpatch", "rev": False, "tier": "quick"}
 
